@@ -24,7 +24,8 @@ import (
 func init() { register("c19", "graceful shutdown of the real binary under signals (C19)", runC19) }
 
 type c19Req struct {
-	arrive, dur int // ms relative to the signal
+	arrive, dur int  // ms relative to the signal
+	ka          bool // sent as POST over the scenario's ONE persistent (keep-alive) connection, like an ingress' connection pool does
 }
 
 type c19Scenario struct {
@@ -61,16 +62,16 @@ func runC19(c *ctx) {
 	var scs []c19Scenario
 	// a LONG wait-before period: a request that finishes after (graceful - wait-before) but well before graceful must be drained - the deadline clock starts
 	// after the wait, not at the signal; a request arriving during the wait is served, one arriving after it is refused
-	scs = append(scs, c19Scenario{1200, 2600, syscall.SIGTERM, []c19Req{{-200, 2100}, {600, 100}, {1500, 20}}})
-	scs = append(scs, c19Scenario{1000, 2400, syscall.SIGINT, []c19Req{{-100, 1750}, {300, 1300}, {1300, 20}}})
+	scs = append(scs, c19Scenario{1200, 2600, syscall.SIGTERM, []c19Req{{-200, 2100, false}, {600, 100, false}, {1500, 20, false}, {-350, 20, true}, {450, 20, true}, {800, 20, true}}})
+	scs = append(scs, c19Scenario{1000, 2400, syscall.SIGINT, []c19Req{{-100, 1750, false}, {300, 1300, false}, {1300, 20, false}, {-300, 20, true}, {500, 20, true}}})
 	for _, wg := range [][2]int{{0, 1600}, {400, 2200}, {400, 1800}} {
 		w, g := wg[0], wg[1]
 		for _, sig := range []syscall.Signal{syscall.SIGTERM, syscall.SIGINT} {
 			// in flight & finishing in time, arriving during the wait, arriving after it, and one that cannot finish
-			scs = append(scs, c19Scenario{w, g, sig, []c19Req{{-300, 500}, {-200, g - 800}, {w + 250, 20}}})
-			scs = append(scs, c19Scenario{w, g, sig, []c19Req{{-250, 100}, {-150, g + 900}, {w + 250, 20}}})
+			scs = append(scs, c19Scenario{w, g, sig, []c19Req{{-300, 500, false}, {-200, g - 800, false}, {w + 250, 20, false}}})
+			scs = append(scs, c19Scenario{w, g, sig, []c19Req{{-250, 100, false}, {-150, g + 900, false}, {w + 250, 20, false}}})
 			if w > 0 {
-				scs = append(scs, c19Scenario{w, g, sig, []c19Req{{100, 300}, {w - 250, g - w - 700}, {w + 300, 10}}})
+				scs = append(scs, c19Scenario{w, g, sig, []c19Req{{100, 300, false}, {w - 250, g - w - 700, false}, {w + 300, 10, false}}})
 			}
 		}
 	}
@@ -119,6 +120,7 @@ func runC19(c *ctx) {
 				endMs   int64
 			}
 			results := make([]res, len(sc.reqs))
+			kaClient := &http.Client{Transport: &http.Transport{MaxIdleConns: 1, MaxIdleConnsPerHost: 1, MaxConnsPerHost: 1, IdleConnTimeout: time.Minute}, Timeout: 6 * time.Second}
 			var rw sync.WaitGroup
 			for i, rq := range sc.reqs {
 				i, rq := i, rq
@@ -128,7 +130,14 @@ func runC19(c *ctx) {
 					time.Sleep(time.Until(t0.Add(time.Duration(rq.arrive) * time.Millisecond)))
 					tr := &http.Transport{DisableKeepAlives: true}
 					hc := &http.Client{Transport: tr, Timeout: 6 * time.Second}
-					resp, err := hc.Get(fmt.Sprintf("http://%s/slow?d=%d", bind, rq.dur))
+					var resp *http.Response
+					var err error
+					if rq.ka {
+						// POST is not replayed by Go's transport on a connection the server closed while idle: the failure is visible
+						resp, err = kaClient.Post(fmt.Sprintf("http://%s/slow?d=%d", bind, rq.dur), "text/plain", strings.NewReader("x"))
+					} else {
+						resp, err = hc.Get(fmt.Sprintf("http://%s/slow?d=%d", bind, rq.dur))
+					}
 					o := "refused"
 					if err == nil {
 						body, rerr := io.ReadAll(resp.Body)
